@@ -144,6 +144,15 @@ CHECKS = {
         "message must be rejected with an error, never a crash.",
    note="Trusted: TLC, tetris/proto constructor and projection glue. Abstract ports outside the claim.",
    tech="TLA+ field-relation + fault spec, TLC case enumeration; S->I replay; I->S order validation"),
+ "C20": dict(cat="model_checking", ref="§6 C20",
+   text="Determinism.tla models map iteration as an environment choice and TLC shows hash-order visiting nondeterministic "
+        "(negative control) and key-order visiting deterministic and complete; Trace_Determinism.tla is the functional-"
+        "dependency invariant digest = f(conversion, input). Every conversion (gds->raw, raw->gds, raw->proto, raw->lef, "
+        "lef->raw, lef->raw->lef, tetris->raw) is run on the inputs of C06/C07/C14/C16/C08 and on abstracts with 2-4 keys in "
+        "every unordered map, 5 times in each of 4 (32) fresh processes; TLC validates every recorded run.",
+   note="Trusted: TLC, the digest (fixed-key hash of the full ordered Debug/JSON rendering of the output, GDS dates "
+        "normalised). The design-level model is bound to the code only through the recorded runs.",
+   tech="TLA+ nondeterminism model + functional-dependency trace spec; I->S validation of recorded runs across processes"),
 }
 
 PENDING = {}
